@@ -67,9 +67,16 @@ CLAIMED.update({
          "DESIGN.md §4 C12"),
  "C13": ("exploration",
          "metamorphic property testing: meaning-preserving rewrites applied on the typed IR of generated accepted and rejected programs; checker verdict and compiled behaviour compared before/after",
-         "Nine rewrites (alpha-renaming, class and member permutation, parenthesis / block wrapping, dropping let / lambda annotations and explicit type arguments, splitting a class into a new module) are applied by construction on the generator's IR; the verdict must not flip (for annotation-dropping rewrites a rejection of the less annotated form is only counted), and both forms' emitted WebAssembly must behave the same.",
+         "Eleven rewrites (alpha-renaming to fresh names and its reverse (scope-level naming so that sibling scopes reuse names), class and member permutation, annotating inferred lambda parameters, parenthesis / block wrapping, dropping let / lambda annotations and explicit type arguments, splitting a class into a new module) are applied by construction on the generator's IR; the verdict must not flip (for annotation-dropping rewrites a rejection of the less annotated form is only counted), and both forms' emitted WebAssembly must behave the same.",
          "Rewrites are meaning-preserving by construction on the IR (unique names, imports derived). Pairs the compiler cannot compile/load are C03's.",
          "DESIGN.md §4 C13"),
+})
+CLAIMED.update({
+ "C07": ("exploration",
+         "model-based property testing: generated type declarations and pattern lists; oracle = brute-force enumeration of all values of the scrutinee type with an independent matcher",
+         "For generated enum / struct / tuple / generic declarations (recursive and nested) and generated pattern lists rendered as match, destructuring let and if-let, every value of the scrutinee type up to the patterns' depth + 1 is enumerated (leaves abstract) and matched by the harness's own matcher. The checker must report non-exhaustiveness iff a value is unmatched, its counterexample must denote at least one value and only unmatched ones, and an if-let is flagged irrefutable iff its pattern matches every value. Failures shrink to a minimal declaration + pattern list.",
+         "Universe capped at 50 000 values per case (larger cases are discarded and counted). Leaves (int / Str / bool) have no literal patterns in this language and are one abstract value.",
+         "DESIGN.md §4 C07"),
 })
 NOT_YET = {}
 
